@@ -7,13 +7,36 @@ from __future__ import annotations
 from .core import g_list, g_opt, g_pair, g_str, g_z
 
 
-def impl_instance(inst):
+NUM_FORMS = ("int", "int64", "int32", "uint8", "uint32", "uint64", "fraction")
+
+
+def num(x, form="int"):
+    """x (an int, a [numerator, denominator] pair or None) in the requested numeric form; durations / start times are
+    documented as int — numpy integers and Fractions are legal-but-unusual stand-ins that HEAD handles exactly"""
+    if x is None:
+        return None
+    if isinstance(x, (list, tuple)):
+        from fractions import Fraction
+
+        return Fraction(x[0], x[1])
+    if form == "int":
+        return x
+    if form == "fraction":
+        from fractions import Fraction
+
+        return Fraction(x)
+    import numpy
+
+    return getattr(numpy, form)(x)
+
+
+def impl_instance(inst, form="int"):
     from queasars.job_shop_scheduling.problem_instances import Job, JobShopSchedulingProblemInstance, Machine, Operation
 
     machines = {m: Machine(m) for m in inst["machines"]}
     jobs = []
     for j in inst["jobs"]:
-        ops = tuple(Operation(o["name"], o["job"], machines.get(o["machine"]) or Machine(o["machine"]), o["dur"]) for o in j["ops"])
+        ops = tuple(Operation(o["name"], o["job"], machines.get(o["machine"]) or Machine(o["machine"]), num(o["dur"], form)) for o in j["ops"])
         jobs.append(Job(j["name"], ops))
     return JobShopSchedulingProblemInstance(inst["name"], tuple(machines[m] for m in inst["machines"]), tuple(jobs))
 
@@ -69,22 +92,22 @@ def expand_sched(inst, sched):
     return [[inst["jobs"][ji], [[o, st] for o, st in zip(inst["jobs"][ji]["ops"], starts)]] for ji, starts in sched]
 
 
-def impl_job(j):
+def impl_job(j, form="int"):
     from queasars.job_shop_scheduling.problem_instances import Job, Machine, Operation
 
-    return Job(j["name"], tuple(Operation(o["name"], o["job"], Machine(o["machine"]), o["dur"]) for o in j["ops"]))
+    return Job(j["name"], tuple(Operation(o["name"], o["job"], Machine(o["machine"]), num(o["dur"], form)) for o in j["ops"]))
 
 
-def impl_general_schedule(rows):
+def impl_general_schedule(rows, form="int", start_form="int"):
     from queasars.job_shop_scheduling.problem_instances import Machine, Operation, ScheduledOperation, UnscheduledOperation
 
     d = {}
     for j, entries in rows:
         ops = []
         for o, st in entries:
-            op = Operation(o["name"], o["job"], Machine(o["machine"]), o["dur"])
-            ops.append(UnscheduledOperation(op) if st is None else ScheduledOperation(op, st))
-        d[impl_job(j)] = tuple(ops)
+            op = Operation(o["name"], o["job"], Machine(o["machine"]), num(o["dur"], form))
+            ops.append(UnscheduledOperation(op) if st is None else ScheduledOperation(op, num(st, start_form)))
+        d[impl_job(j, form)] = tuple(ops)
     return d
 
 
